@@ -164,17 +164,19 @@ def graph_to_numpy(causal_graph):
         if len(graph_map) != 1:
             raise AssertionError(f"The number of graph maps should be 1, not {len(graph_map)}...")
 
-        # set all bidirected edges with value 10
+    # map each edge to an edge value
+    for _, graph_arr in graph_map.items():
+        numpy_graph += graph_arr
+
+    # bidirected and undirected edges are symmetric entries that are added on top
+    if bidirected_graph_arr is not None:
         bidirected_graph_arr[bidirected_graph_arr != 0] = EDGE_TO_VALUE_MAPPING[
             bidirected_edge_name
         ]
+        numpy_graph += bidirected_graph_arr
+    if undirected_graph_arr is not None:
         undirected_graph_arr[undirected_graph_arr != 0] = EDGE_TO_VALUE_MAPPING[
             undirected_edge_name
         ]
-        numpy_graph += bidirected_graph_arr
-        numpy_graph += graph_arr
-    else:
-        # map each edge to an edge value
-        for _, graph_arr in graph_map.items():
-            numpy_graph += graph_arr
+        numpy_graph += undirected_graph_arr
     return numpy_graph
